@@ -139,6 +139,7 @@ Section Defaults.
     else if q =? "builtins.str" then Some (VStr [])
     else if q =? "builtins.bytes" then Some (VBytes [])
     else if q =? "builtins.bool" then Some (VBool false)
+    else if q =? "kio.schema.errors.ErrorCode" then Some (VInt 0)      (* ErrorCode.none *)
     else None.
 
   (* get_implicit_default: the type itself, else its first base (__bases__[0] is the second
